@@ -59,7 +59,7 @@ def draw_rule(ctx, facts):
             else:
                 ctx.violation("DRAW", fid2, "draw value", hirq.loc(w), "values[k] must be a fresh uniform integer and k the next element of the per-item FYshuffle; found value `%s`, index `%s`" % (v[:80], k[:60]))
         for (w, f, idx) in writes_to_self(fn2, "l"):
-            if nf.nf(w["r"], True) != J2:
+            if nf.nf(w["r"], True, res=R2) != J2:
                 ctx.violation("DRAW", fid2, "level", hirq.loc(w), "the level written to l[k] must be the draw counter %s" % J2)
 
 
